@@ -271,4 +271,48 @@ def gcpToCrs (reproj : Pt → Pt) (g : GeoBox) (cps : List (Pt × Pt)) (dst : Na
     let back ← if isIdentityApprox g.A then pure (fun (p : Pt) => p) else (g.A.inv?).map Aff.apply
     pure (⟨g.ny, g.nx, Aff.id, dst⟩, cps.map (fun cp => (back cp.1, reproj cp.2)))
 
+/-! ### exact quarter turns: `gbox.rotate(deg)` for `deg ≡ 0, 90, 180, 270 (mod 360)`
+
+`affine.Affine.rotation` reduces the angle with `deg % 360.0` and returns the exact pairs `(0, 1)`, `(-1, 0)`,
+`(0, -1)` for 90 / 180 / 270 (`cos_sin_deg`); 0 gives `cos 0 = 1`, `sin 0 = 0`.  `k` counts quarter turns. -/
+
+def quarterCS (k : Int) : Rat × Rat :=
+  if k % 4 = 0 then (1, 0) else if k % 4 = 1 then (0, 1) else if k % 4 = 2 then (-1, 0) else (0, -1)
+
+/-- `gbox.rotate(90 * k)` -/
+def rotateQuarter (g : GeoBox) (k : Int) : GeoBox := rotate g (quarterCS k).1 (quarterCS k).2
+
+/-! ### reprojection given as a finite table (what pyproj returned for the vertices at hand)
+
+Used by the driver to run `getitem` / `enclosingArg` / `project` on regions in ANOTHER CRS: the harness obtains the
+images of the region's vertices from a fresh pyproj transformer and hands them over as a table. -/
+
+def tableLookup (table : List (Pt × Pt)) (p : Pt) : Option Pt := (table.find? (fun e => e.1 == p)).map (·.2)
+
+/-- the reprojection function of a table (identity off the table; callers check `tableCovers` first) -/
+def tableReproj (table : List (Pt × Pt)) : Nat → Nat → Pt → Pt := fun _ _ p => (tableLookup table p).getD p
+
+def tableCovers (table : List (Pt × Pt)) (pts : List Pt) : Bool := pts.all (fun p => (tableLookup table p).isSome)
+
+/-! ### `coordinates` / `dimensions` by kind of CRS (geobox.py:150-158, 767-795; crs.py:187-201) -/
+
+inductive CrsKind where
+  | none | geographic | projected
+  deriving DecidableEq, Repr
+
+/-- `GeoBox.dimensions` = `(ydim, xdim)` -/
+def dimensions : CrsKind → String × String
+  | .none => ("y", "x")
+  | .geographic => ("latitude", "longitude")
+  | .projected => ("y", "x")
+
+/-- the keys of `coordinates` in order, each with its resolution: `zip(dimensions, (ys, xs), units, (ry, rx))` -/
+def coordsMeta (g : GeoBox) (k : CrsKind) : Res (List (String × Rat)) :=
+  if isAffineST g.A then .ok [((dimensions k).1, g.A.e), ((dimensions k).2, g.A.a)] else .error .valueError
+
+/-- `geographic_extent` is `extent` itself (no reprojection) exactly for a CRS-less or geographic geobox -/
+def geographicExtentIsExtent : CrsKind → Bool
+  | .projected => false
+  | _ => true
+
 end OdcGeo.C02
